@@ -58,7 +58,7 @@ def run_case(case, work, rec):
     flists = [[names[0]], [names[-1], "grid_level"], ["grid_level"], ["all"],
               rng.sample(names, min(len(names), 3))]
     if "asset" in case:
-        flists = [["temp"], ["density", "grid_level"]]
+        flists = [[names[0]], [names[-1], "grid_level"], [names[2], names[1]]]
     for fl in flists:
         for limit in [None] + list(range(finest + 1)):
             L = finest if limit is None else limit
